@@ -165,13 +165,15 @@ def _run(d: bi.Dir, states: list, res: dict, opts: dict) -> None:
             continue
         # ---------------- a command
         res["commands"] += 1
-        before_text = env.pages()
-        before_dump = bi.canonical_dump(env) if env.db_path.exists() else []
         paths = [str(env.path(bi.PAGE_FILE[p])) for p in sorted(st["lastArg"])] if last in ("reindexPaths", "refusedReindex") else []
-        if last in ("create", "refusedCreate"):
-            r = env.db_create(force=(last == "create" and st["lastArg"] == [0]))
-        else:
-            r = env.reindex(*paths)
+        force = (last == "create" and st["lastArg"] == [0])
+
+        def run_cmd():
+            return env.db_create(force=force) if last in ("create", "refusedCreate") else env.reindex(*paths)
+
+        if opts.get("crash") and not last.startswith("refused"):
+            crash_enumeration(d, pages, run_cmd, res, k, last, opts)
+        r = run_cmd()
         refused_expected = last.startswith("refused")
         if refused_expected and r.ok:
             _issue(res, k, last, "refusal.missing", {"note": "the command succeeded although a broken page is not whitelisted"})
@@ -214,6 +216,84 @@ def _run(d: bi.Dir, states: list, res: dict, opts: dict) -> None:
     res["final_pages"] = len([p for p in pages if env.path(bi.PAGE_FILE[p]).exists()])
 
 
+def _canon_real(d: bi.Dir, pages):
+    return bi.canon_state(d.project_files(pages), d.project_db(pages), bi.real_zid_day)
+
+
+def _dup_zids(d: bi.Dir, pages) -> list:
+    seen, dup = {}, []
+    for p, pg in d.project_files(pages).items():
+        if isinstance(pg, str):
+            continue
+        for n in pg["notes"]:
+            if n["zid"]:
+                if n["zid"] in seen and seen[n["zid"]] != n["uid"]:
+                    dup.append(n["zid"])
+                seen[n["zid"]] = n["uid"]
+    return dup
+
+
+def crash_enumeration(d: bi.Dir, pages, run_cmd, res, step, action, opts) -> None:
+    """C13 on the real code: the command is traced once uninterrupted (external effects e_0..e_K-1), then for every k it
+    is killed before e_k (thorough: also with write e_k torn) and run again to completion; the rerun must succeed and
+    end in the state of the uninterrupted run (up to ZID renaming), in agreement, with no ZID on two notes."""
+    from .interpose import Interposer, SimulatedCrash
+    env = d.env
+    snap = env.snapshot()
+    try:
+        with Interposer(env.zdir) as ip:
+            r0 = run_cmd()
+        effects = list(ip.effects)
+        if not r0.ok:
+            return          # the uninterrupted command fails: reported by the ordinary replay
+        good = _canon_real(d, pages)
+        res.setdefault("effects", []).append([f"{e['kind']}:{e['target']}" for e in effects])
+        points = [("before", k, 0.0) for k in range(len(effects))]
+        if opts.get("torn"):
+            for k, e in enumerate(effects):
+                if e["kind"] == "write":
+                    points += [("torn", k, 0.0), ("torn", k, 0.5), ("torn", k, 0.97)]
+        for mode, k, keep in points:
+            env.restore(snap)
+            crashed = False
+            try:
+                kw = {"crash_before": k} if mode == "before" else {"torn_at": k, "torn_keep": keep}
+                with Interposer(env.zdir, **kw):
+                    run_cmd()
+            except SimulatedCrash:
+                crashed = True
+            zenv.reset_process_state()
+            res["crash_points"] = res.get("crash_points", 0) + 1
+            if not crashed:
+                _issue(res, step, action, "crash.harness", {"point": [mode, k, keep], "note": "the injected crash did not fire"})
+                continue
+            where = {"point": mode, "effect_index": k, "effect": f"{effects[k]['kind']}:{effects[k]['target']}",
+                     "keep": keep, "effects": [f"{e['kind']}:{e['target']}" for e in effects]}
+            r1 = run_cmd()
+            if not r1.ok:
+                _issue(res, step, action, f"crash.rerun-failed.{mode}", dict(where, rc=r1.rc))
+                continue
+            now = _canon_real(d, pages)
+            if now != good:
+                diff = [p for p in good[0] if good[0][p] != now[0][p]], [p for p in good[1] if good[1][p] != now[1][p]]
+                _issue(res, step, action, f"crash.diverged.{mode}",
+                       dict(where, pages_files_differ=diff[0], pages_index_differ=diff[1],
+                            files={p: now[0][p] for p in diff[0]}, index={p: now[1][p] for p in diff[1]},
+                            uninterrupted_files={p: good[0][p] for p in diff[0]},
+                            uninterrupted_index={p: good[1][p] for p in diff[1]}))
+                continue
+            # (after an explicit-path run other pages may legitimately be stale: equality with the uninterrupted run decides)
+            ag = bi.agreement_real(env) if action in ("create", "reindex") else []
+            if ag:
+                _issue(res, step, action, f"crash.disagree.{mode}", dict(where, agreement=ag[:3]))
+            dz = _dup_zids(d, pages)
+            if dz:
+                _issue(res, step, action, f"crash.dupzid.{mode}", dict(where, zids=dz))
+    finally:
+        env.restore(snap)
+        shutil.rmtree(snap, ignore_errors=True)
+
+
 def rebuild_equivalence(env) -> dict | None:
     """C06's own oracle: an index freshly created from a copy of the files equals the incrementally maintained one."""
     other = zenv.ZEnv()
@@ -235,4 +315,4 @@ def rebuild_equivalence(env) -> dict | None:
 
 
 def run_behaviours(trace_files: list, opts: dict) -> list:
-    return par.pmap(replay_behaviour, [(f, opts) for f in trace_files], chunk=2)
+    return par.pmap(replay_behaviour, [(f, opts) for f in trace_files], chunk=1 if opts.get("crash") else 2)
